@@ -8,9 +8,10 @@ except Exception:
     sys.exit(0)
 res = [l.rstrip('\n') for l in open(out) if l.startswith('SELFTEST')]
 d.setdefault('coverage', {})['selftest'] = {
-    'mutants_run': len(res),
+    'mutants_run': len([l for l in res if not l.startswith('SELFTEST-SKIPPED')]),
     'detected': len([l for l in res if l.startswith('SELFTEST ')]),
     'undetected': [l for l in res if l.startswith('SELFTEST-FAILED')],
+    'skipped_patch_does_not_apply': [l for l in res if l.startswith('SELFTEST-SKIPPED')],
     'results': res,
 }
 json.dump(d, open(ev, 'w'), indent=1)
